@@ -41,7 +41,7 @@ def mLabel (s : St) : String :=
   | .cbAcq => "acquire(shut,B)" | .cbWake => "send(wakeup)" | .cbRel => "release(shut)"
   | .flagAcq => "acquire(shut,B)" | .flagRel => "release(shut)"
   | .brkAcq _ => "acquire(shut,B)" | .brkRel _ => "release(shut)"
-  | .kill p _ => s!"kill({p})" | .killJoin p _ => s!"pjoin({p})"
+  | .kill p => s!"kill({p})" | .killJoin p => s!"pjoin({p})"
   | .jAcq1 => "acquire(mgmt,B)"
   | .jRelExit ps _ => (match ps with | p :: _ => s!"release(exit[{p}])" | [] => "?")
   | .jRel1 _ => "release(mgmt)"
